@@ -38,6 +38,12 @@ func (m *MCond) setKw(v Val) {
 	switch v.K {
 	case "s":
 		m.Kw = v.S
+	case "nstr":
+		// a named string type is not a string; with a String method it is a
+		// stringer (consulted unless it is the zero value), without one it is refused
+		if v.D == 1 && v.S != "" {
+			m.Kw = "kw:" + v.S
+		}
 	case "strer":
 		// a stringer is consulted unless its value is the zero value of its
 		// type; whatever text it gives (the empty text included) is stored
